@@ -93,3 +93,66 @@ def _r_c20_zip(f):
         return False
     except TypeError:
         return True
+
+
+# ------------------------------------------------------------------ C01 / C03: NONLITERAL merge
+import oracle as _oracle
+
+
+@trigger("nonliteral_both_kinds")
+def _t_nl_both(f, obs):
+    """failing figure is on a NONLITERAL line / comment and some selected instance of the class has
+    both an IRI and a blank-node value for that property and direction"""
+    fact = obs.get("fact")
+    if not fact or fact.get("ty") != "NONLITERAL":
+        return False
+    return _oracle.has_both_kinds(obs["triples"], obs["cfg"], fact["class"], fact["prop"], fact["inv"])
+
+
+@trigger("nonliteral_mixed_exact_cards")
+def _t_nl_mixed(f, obs):
+    """NONLITERAL '+' figure built from a BNode and an IRI survivor that are not both '+'
+    (possible only with keep_less_specific=False)"""
+    fact = obs.get("fact")
+    if not fact or fact.get("ty") != "NONLITERAL" or obs["cfg"]["keep_less_specific"]:
+        return False
+    if fact.get("card") != "+":
+        return False
+    parts = [c for (t, c, n) in fact.get("siblings", []) if t in ("BNode", "IRI")]
+    return len(parts) >= 2 and not all(c == "+" for c in parts[:2]) or len(parts) < 2
+
+
+def _run_pinned(nt, **kw):
+    import common
+    from shexer.shaper import Shaper
+    from shexer.consts import MIXED_INSTANCES
+    s = Shaper(raw_graph=nt, all_classes_mode=True, instances_report_mode=MIXED_INSTANCES, **kw)
+    return s.shex_graph(string_output=True)
+
+
+_T = "<http://www.w3.org/1999/02/22-rdf-syntax-ns#type>"
+
+
+def _e(x):
+    return "<http://example.org/%s>" % x
+
+
+@replayer("nonliteral_both_kinds")
+def _r_nl_both(f):
+    nt = "".join(l + " .\n" for l in [_e('a') + " " + _T + " " + _e('C'), _e('b') + " " + _T + " " + _e('C'), _e('c') + " " + _T + " " + _e('C'),
+                                        _e('b') + " " + _e('q') + " " + _e('a'), _e('b') + " " + _e('q') + " _:b1", _e('c') + " " + _e('q') + " " + _e('z')])
+    out = _run_pinned(nt)
+    # b has two non-literal values, yet the NONLITERAL figure says cardinality {1} for both b and c
+    return any("NONLITERAL" in line and "(3 instances)" in line for line in out.split("\n"))
+
+
+@replayer("nonliteral_mixed_exact_cards")
+def _r_nl_mixed(f):
+    nt = "".join(l + " .\n" for l in [_e('a') + " " + _T + " " + _e('C'), _e('b') + " " + _T + " " + _e('C'), _e('c') + " " + _T + " " + _e('C'),
+                                        _e('u') + " " + _T + " " + _e('D'), _e('a') + " " + _e('p') + " _:x", _e('b') + " " + _e('p') + " " + _e('u'),
+                                        _e('b') + " " + _e('p') + " " + _e('v'), _e('c') + " " + _e('p') + " " + _e('w')])
+    out = _run_pinned(nt, keep_less_specific=False, all_instances_are_compliant_mode=False)
+    for line in out.split("\n"):
+        if "NONLITERAL" in line and "+" in line.split("NONLITERAL")[1].split("#")[0]:
+            return "(2 instances)" in line
+    return False
